@@ -344,6 +344,50 @@ pub fn run(ctx: &Ctx) {
         "text",
     );
 
+    // map literals that write a key more than once (a tree cannot hold such a map, so no printed tree ever contains one):
+    // the derivation is the same with and without the trailing comma, and the item written last stays
+    let repeated: Vec<String> = {
+        let mut out = vec![];
+        let key_lists: [&[&str]; 9] = [&["a", "a"], &["a", "b", "a"], &["a", "a", "b"], &["b", "a", "a"], &["a", "a", "a"], &["a", "b", "a", "b"], &["x", "a", "y", "a", "z"], &["x1", "x1"], &["k9", "k9"]];
+        for keys in key_lists {
+            for comma in ["", ",", " ,"] {
+                for form in 0..4 {
+                    let items: Vec<String> = keys
+                        .iter()
+                        .enumerate()
+                        .map(|(i, k)| match form {
+                            0 => format!("{k}: i{}", i + 1),
+                            1 => format!("{k}: \"v{}\"", i + 1),
+                            2 => format!("{k}: {{{k}: i{}, {k}: i{}{comma}}}", i + 1, i + 11),
+                            _ => format!("{k}: r{} + i{}", i + 1, i + 1),
+                        })
+                        .collect();
+                    let lit = format!("{{{}{comma}}}", items.join(", "));
+                    out.push(lit.clone());
+                    out.push(format!("{lit}.{}", keys[0]));
+                    out.push(format!("[{lit}, {lit}]"));
+                    out.push(format!("f({lit})"));
+                    out.push(format!("{lit} contains \"{}\"", keys[0]));
+                }
+            }
+        }
+        out
+    };
+    ctx.list(
+        "repeated-map-keys",
+        &repeated,
+        |t, acc| {
+            acc.case("repeated-key-literal", true, || t.to_string());
+            let reference = crate::model::parse::parse_expr(t);
+            if reference.is_err() {
+                return Err(Issue::new("grammar:harness-list", format!("the repeated-key list holds {t:?}, which the reference parser does not derive")));
+            }
+            check_text_against(t, reference)
+        },
+        |t| json!({"source_text": t}),
+        "text",
+    );
+
     let alpha = alphabet();
     let n = alpha.len() as u64;
 
